@@ -1,8 +1,10 @@
 """C16: connection-level check (see DESIGN section 6 / C16): scenario families on the real endpoints, recorded traces
 validated against RSocket.tla by TLC; design-level model checking of the same monitors in RSocketMC.tla."""
-from . import conn, families, mc
+from . import conn, families, mc, setupmodel
 
 
 def run(v):
+    # Setup.tla: the server's accept / reject decision table, every row replayed on a real server
+    setupmodel.check(v)
     mc.run_for(v, 'C16')
     conn.check(v, 'C16', families.FAMILIES['C16'])
